@@ -163,6 +163,85 @@ func runMalformed(w *lib.Writer, r *lib.Rand, tier string) {
 	w.Meta.Extra["malformed_distribution"] = dist
 }
 
+// ---------------- LoadFile: the first line starting with '#' ----------------
+
+// stripFirstLine is luaL_loadfile's rule: a first line starting with '#' is dropped up to (not
+// including) its newline character, or entirely when there is none.
+func stripFirstLine(src []byte) []byte {
+	if len(src) == 0 || src[0] != '#' {
+		return src
+	}
+	for i, c := range src {
+		if c == '\n' {
+			return src[i:]
+		}
+	}
+	return nil
+}
+
+// runLoadFile: LoadFile(text) must end like LoadString(text without its '#' line): Go side only.
+func runLoadFile(w *lib.Writer, r *lib.Rand, tier string) {
+	n := 400
+	if tier == "thorough" {
+		n = 6000
+	}
+	fixed := []string{"#", "#abc", "#!/usr/bin/lua", "#x\n", "#x\nreturn 1", "#x\r\nreturn = 1", "", "#\n", "##", "x#", "#return 1",
+		"#a\rreturn 1", "#!lua\nreturn ...", "# \n\n\nx = = 1", "#\x00\n", "#\nreturn\f1"}
+	var srcs [][]byte
+	for _, t := range fixed {
+		srcs = append(srcs, []byte(t))
+	}
+	for i := 0; i < n; i++ {
+		cr := r.Fork()
+		var body []byte
+		switch cr.Pick(3, 2, 2) {
+		case 0:
+			body = sampleProgram(cr)
+		case 1:
+			body = mutate(cr, sampleProgram(cr))
+		case 2:
+			body = randSoup(cr)
+		}
+		switch cr.Pick(5, 2, 1) {
+		case 0:
+			line := cr.Bytes(cr.Range(0, 12), []byte("!/usr binlua-#\r \t"))
+			body = append(append(append([]byte("#"), line...), '\n'), body...)
+		case 1:
+			body = append([]byte("#"), body...) // no newline of its own: the program's first line is lost
+		}
+		srcs = append(srcs, body)
+	}
+	rqs := make([]Request, 0, 2*len(srcs))
+	for i, s := range srcs {
+		rqs = append(rqs, Request{ID: 2 * i, Src: HB(s), File: true, LimitMs: 3000},
+			Request{ID: 2*i + 1, Src: HB(stripFirstLine(s)), LimitMs: 3000})
+	}
+	res := runAll(rqs, workers)
+	for i, s := range srcs {
+		rf, rs := res[2*i], res[2*i+1]
+		in := In{Kind: "file", Src: HB(s)}
+		bad := goFailOf(rf)
+		if bad == "" && goFailOf(rs) == "" && rf.Load != rs.Load {
+			bad = fmt.Sprintf("LoadFile ends in %s but LoadString of the text without its '#' line ends in %s", loadNames[rf.Load], loadNames[rs.Load])
+		}
+		if i < len(fixed) || bad != "" {
+			addFileCase(w, in, rf, bad)
+		} else {
+			w.Meta.GoOnlyChecked++
+		}
+	}
+	w.Meta.Extra["loadfile_cases"] = len(srcs)
+}
+
+func addFileCase(w *lib.Writer, in In, r Result, bad string) {
+	id := w.NextID()
+	w.Add(lib.Case{Input: in, Observed: observed(r), Class: "loadfile", Nontrivial: len(in.Src) > 0,
+		Coq: "CGoSide " + lib.CoqBool(bad == "")})
+	if bad != "" {
+		w.GoFail(id, bad)
+	}
+}
+
 // ---------------- adversarial sizes ----------------
 
 const advLimitMs = 120000
